@@ -71,6 +71,8 @@ T = {
          'bounds on shape, length and alphabet as reported in the evidence file'),
 }
 
+READY = ['C06', 'C07', 'C13', 'C20']
+
 NA_REASON = 'check not built yet in this round (planned; see DESIGN.md section 3)'
 
 
@@ -78,7 +80,7 @@ def main():
     checks, na = [], []
     for pid in sorted(T):
         level, tech, text, note = T[pid]
-        if os.path.exists(os.path.join(V, 'checks', pid.lower() + '.py')):
+        if pid in READY and os.path.exists(os.path.join(V, 'checks', pid.lower() + '.py')):
             checks.append(dict(
                 property_id=pid,
                 quick_cmd='./check %s --tier quick' % pid,
